@@ -42,4 +42,10 @@ def lcaMultiWay (base : α) (lcas : List α) (other this : α) (allow : Bool := 
         else .conflict
       else .conflict
 
+/-- Python `set(l)` for the T1 transcription of `_lca_multi_way`: a
+duplicate-free list with the same members.  The order is immaterial: the code
+only uses `len`, `in` and `pop()` of a one-element set. -/
+def pySet (l : List α) : List α :=
+  l.foldr (fun x r => if x ∈ r then r else x :: r) []
+
 end BreezyVerif.C18
